@@ -119,6 +119,16 @@ def run_in_interpreter(prop_id, modname, funcname, case, pyflags=("-O",), timeou
         os.unlink(path)
 
 
+def interp_case(w):
+    """case wrapper: run w['case'] through w['mod'].w['func'] in an interpreter started with w['flags']"""
+    rec = run_in_interpreter(w["prop"], w["mod"], w["func"], w["case"], tuple(w["flags"]))
+    tag = "python" + "".join(w["flags"])
+    for v in rec["viol"]:
+        head, _, tail = v["sig"].partition(":")
+        v["sig"] = f"{head}:{tag}:{tail}"
+    return {"viol": rec["viol"], "nontrivial": True, "outcome": f"{tag}-ok" if not rec["viol"] else rec["viol"][0]["sig"]}
+
+
 def V(sig: str, msg: str) -> dict:
     """A violation record: `sig` identifies the failing class precisely (used for known findings)."""
     return {"sig": sig, "msg": msg}
@@ -298,6 +308,12 @@ class Ctx:
             p["executions"] += n
             p["violations"] += nviol
         return _unrotate(results, rot)
+
+    def run_under(self, modname, funcname, cases, flags=("-O",), part=None):
+        """the same cases on the real code in fresh interpreters started with `flags` (environment dimension:
+        -O strips assert statements and __debug__ blocks)"""
+        wrapped = [{"prop": self.prop_id, "mod": modname, "func": funcname, "case": c, "flags": list(flags)} for c in cases]
+        return self.run("mc.explore", "interp_case", wrapped, part=part or ("python" + "".join(flags)), chunksize=1)
 
     def run_lattice(self, modname, funcname, dims, bound, part=None, extra=None, canon=None, **kw):
         """Mode A: BFS over the deviation lattice of `dims` up to `bound` (None = full product)."""
